@@ -48,8 +48,8 @@ type HarnessResult struct {
 	Known              []string
 	Replays            []ReplayOutcome
 	Validated          int
-	Sequenced          int    // validated natively with the engine's schedule enforced to the end
-	SeqDiverged        int    // sequenced runs that left the schedule (compared on assertions only)
+	Sequenced          int // validated natively with the engine's schedule enforced to the end
+	SeqDiverged        int // sequenced runs that left the schedule (compared on assertions only)
 	SeqNote            string
 	ValidationMismatch []string
 	Notes              []string
@@ -302,6 +302,9 @@ func (r *CheckRun) printHarness(hr *HarnessResult) {
 	sort.Strings(oc)
 	fmt.Printf("  %-40s paths=%d [%s] queries=%d solver=%.1fs unknown=%d wall=%.1fs\n", hr.Name, ex.Paths, strings.Join(oc, " "),
 		ex.Queries, ex.SolverTime.Seconds(), ex.UnknownQ, hr.Wall.Seconds())
+	if ex.SecondOpinions > 0 {
+		fmt.Printf("      %d queries timed out in the worker's solver and were re-asked to a second solver (z3 5.1, fresh, 4x time)\n", ex.SecondOpinions)
+	}
 	for _, name := range sortedKeys(ex.AssertStats) {
 		st := ex.AssertStats[name]
 		fmt.Printf("      assert %-36s holds=%d violated=%d unknown=%d\n", name, st.Holds, st.Violated, st.Unknown)
@@ -661,6 +664,7 @@ func (r *CheckRun) writeEvidence(violations, code int) error {
 		Reached   map[string]int            `json:"reached"`
 		Bounds    map[string]int            `json:"bounds"`
 		Queries   int                       `json:"queries"`
+		SecondOp  int                       `json:"queries_reasked_to_second_solver,omitempty"`
 		SolverS   float64                   `json:"solver_s"`
 		WallS     float64                   `json:"wall_s"`
 		Validated int                       `json:"paths_validated_natively"`
@@ -678,7 +682,7 @@ func (r *CheckRun) writeEvidence(violations, code int) error {
 	for _, hr := range r.results {
 		ex := hr.Ex
 		h := hsum{Harness: hr.Name, Package: hr.Pkg, Paths: ex.Paths, Outcomes: map[string]int{}, Asserts: map[string]map[string]int{}, Reached: ex.ReachStats,
-			Queries: ex.Queries, SolverS: ex.SolverTime.Seconds(), WallS: hr.Wall.Seconds(), Validated: hr.Validated, Sequenced: hr.Sequenced, SeqDiv: hr.SeqDiverged, SeqNote: hr.SeqNote, Notes: hr.Notes,
+			Queries: ex.Queries, SecondOp: ex.SecondOpinions, SolverS: ex.SolverTime.Seconds(), WallS: hr.Wall.Seconds(), Validated: hr.Validated, Sequenced: hr.Sequenced, SeqDiv: hr.SeqDiverged, SeqNote: hr.SeqNote, Notes: hr.Notes,
 			Bounds: map[string]int{"unwind": hr.Cfg.Unwind, "max_decisions": hr.Cfg.MaxDecisions, "max_paths": hr.Cfg.MaxPaths, "max_steps": hr.Cfg.MaxSteps,
 				"preemption_bound": hr.Cfg.PreemptBound, "max_goroutines": hr.Cfg.MaxGoroutines, "max_timer_fires": hr.Cfg.MaxTimerFires, "deepest_decision_depth": ex.MaxDecDepth}}
 		for o, n := range ex.ByOutcome {
